@@ -1291,11 +1291,11 @@ ares_status_t ares_buf_parse_dns_str(ares_buf_t *buf, size_t remaining_len,
 ares_status_t ares_buf_append_num_dec(ares_buf_t *buf, size_t num, size_t len)
 {
   size_t        i;
-  size_t        mod;
+  size_t        ndigits = ares_count_digits(num);
   ares_status_t status;
 
   if (len == 0) {
-    len = ares_count_digits(num);
+    len = ndigits;
   }
 
   /* Reserve the room for all digits up front so that a failed allocation
@@ -1305,20 +1305,16 @@ ares_status_t ares_buf_append_num_dec(ares_buf_t *buf, size_t num, size_t len)
     return status;
   }
 
-  mod = ares_pow(10, len);
-
   for (i = len; i > 0; i--) {
-    size_t digit = (num % mod);
+    size_t digit = 0;
 
-    mod /= 10;
-
-    /* Silence coverity.  Shouldn't be possible since we calculate it above */
-    if (mod == 0) {
-      return ARES_EFORMERR; /* LCOV_EXCL_LINE: DefensiveCoding */
+    /* Positions beyond the most significant digit are padding.  Only powers
+     * of 10 that fit into a size_t are ever computed. */
+    if (i <= ndigits) {
+      digit = (num / ares_pow(10, i - 1)) % 10;
     }
 
-    digit  /= mod;
-    status  = ares_buf_append_byte(buf, '0' + (unsigned char)(digit & 0xFF));
+    status = ares_buf_append_byte(buf, '0' + (unsigned char)digit);
     if (status != ARES_SUCCESS) {
       return status; /* LCOV_EXCL_LINE: OutOfMemory */
     }
@@ -1329,11 +1325,12 @@ ares_status_t ares_buf_append_num_dec(ares_buf_t *buf, size_t num, size_t len)
 ares_status_t ares_buf_append_num_hex(ares_buf_t *buf, size_t num, size_t len)
 {
   size_t                     i;
+  size_t                     ndigits = ares_count_hexdigits(num);
   ares_status_t              status;
   static const unsigned char hexbytes[] = "0123456789ABCDEF";
 
   if (len == 0) {
-    len = ares_count_hexdigits(num);
+    len = ndigits;
   }
 
   /* Reserve the room for all digits up front so that a failed allocation
@@ -1344,7 +1341,15 @@ ares_status_t ares_buf_append_num_hex(ares_buf_t *buf, size_t num, size_t len)
   }
 
   for (i = len; i > 0; i--) {
-    status = ares_buf_append_byte(buf, hexbytes[(num >> ((i - 1) * 4)) & 0xF]);
+    size_t digit = 0;
+
+    /* Positions beyond the most significant digit are padding.  The shift
+     * count always stays below the width of a size_t. */
+    if (i <= ndigits) {
+      digit = (num >> ((i - 1) * 4)) & 0xF;
+    }
+
+    status = ares_buf_append_byte(buf, hexbytes[digit]);
     if (status != ARES_SUCCESS) {
       return status; /* LCOV_EXCL_LINE: OutOfMemory */
     }
